@@ -227,6 +227,9 @@ func main() {
 		// Server.Open: the size comes from Status() (ReadInfo; an error there leaves it 0)
 		info, _ := replica.ReadInfo(dir)
 		r, err = replica.New(true, info.Size, 4096, dir, nil, "")
+		if err != nil {
+			r = nil // Server.Open: s.r stays nil
+		}
 	case "close":
 		err = r.Close()
 	case "write":
